@@ -296,6 +296,9 @@ def check_invocations(spec, res, ctx, lives, engine):
             return
         if life['death'] is not None and (d - b) % ts > 1e-9:
             inflight_hit = True
+    check_values(spec, res, ctx, lives_all, engine, tsof)
+    if res.violations:
+        return
     moved_steps = any(op['op'] == 'move' for bt in spec['ticks'] for op in bt)
     ndiv = sum(op['op'] == 'divide' for bt in spec['ticks'] for op in bt)
     if inflight_hit:
@@ -303,6 +306,68 @@ def check_invocations(spec, res, ctx, lives, engine):
     res.nontrivial = inflight_hit or ndiv >= 2 or (
         moved_steps and any(r.get('step') or r.get('deriver')
                             for r in all_residents(spec)))
+
+
+def check_values(spec, res, ctx, lives_all, engine, tsof):
+    """Observable form across structure: while a resident with inc=1 lives at
+    one path, its compartment's x at every emitted time T equals the value at
+    the start of that life + one per completed interval + the plain value
+    updates the operator applied to that compartment in the meantime."""
+    rows = {}
+    for r in engine.emitter.rows:
+        if r.get('table') == 'history':
+            rows[r['data']['time']] = r['data']
+    sets = []        # (time applied, compartment path, delta on x)
+    for ev in ctx.log:
+        if ev[0] == 'op':
+            for op in ev[4]:
+                if op['op'] == 'set' and 'x' in op['delta']:
+                    sets.append((ev[2] + 1.0,
+                                 ref.PORT_PATH[op['coll']] + (op['key'],),
+                                 op['delta']['x']))
+    incs = {}
+    for obj in ctx.keep:
+        if isinstance(obj, kit.AgentProc):
+            incs[id(obj)] = obj.parameters['inc']
+    final = engine.global_time
+    for life in lives_all:
+        path, ident, b = life['path'], life['ident'], life['birth']
+        if path[-1] != 'grow' or ident not in tsof or not incs.get(ident):
+            continue
+        d = life['death'] if life['death'] is not None else final + 1
+        ts = tsof[ident]
+        comp = path[:-1]
+        x0 = struct_get(rows.get(b), comp)
+        if x0 is None:
+            continue
+        for T in sorted(rows):
+            if T <= b or T >= d:
+                continue
+            got = struct_get(rows[T], comp)
+            if got is None:
+                continue
+            k = int((T - b) / ts + 1e-9)
+            want = x0 + k + sum(dx for (t, p, dx) in sets
+                                if p == comp and b < t <= T + 1e-9)
+            if got != want:
+                res.fail('value', 'compartment %r (resident timestep %r, alive '
+                         'from %r): x = %r at time %r, expected %r = %r at %r '
+                         '+ %d completed intervals + operator updates'
+                         % (comp, ts, b, got, T, want, x0, b, k),
+                         'engine.py:run_for')
+                return
+        res.label('value_checked')
+
+
+def struct_get(row, comp):
+    cur = row
+    for seg in comp:
+        if not isinstance(cur, dict) or seg not in cur:
+            return None
+        cur = cur[seg]
+    if isinstance(cur, dict) and isinstance(cur.get('x'), int):
+        return cur['x']
+    return None
 
 
 def all_residents(spec):
